@@ -10,7 +10,7 @@ import (
 func aggCfg(id, tier string) agg.Config {
 	switch id {
 	case "C11":
-		c := agg.Config{Depth: 4, Ops: []string{
+		c := agg.Config{Depth: 5, Ops: []string{
 			"gov regcoin acoin acoin", "gov addcoin bcoin bcoin mod", "gov regerc20 ext", "gov regerc20 steal", "gov regerc20 delayed",
 			"cc acoin u1 u1 3", "cc acoin u1 u2 1", "cc bcoin u2 u2 3", "cc acoin u1 u1 11", "cc acoin u1 blocked 1", "cc ccoin u1 u1 1",
 			"ce mod acoin u1 u1 1", "ce mod bcoin u1 u2 3", "ce mod acoin u1 blocked 1", "ce mod acoin u1 u1 20", "ce mod ccoin u1 u1 1",
@@ -23,7 +23,7 @@ func aggCfg(id, tier string) agg.Config {
 		}
 		return c
 	case "C12":
-		c := agg.Config{Depth: 4, Ops: []string{
+		c := agg.Config{Depth: 5, Ops: []string{
 			"gov regcoin acoin acoin", "gov regcoin acoin CoinA", "gov regcoin bcoin CoinB", "gov regcoin bcoin CoinBagain", "gov regcoin ccoin ccoin",
 			"gov addcoin bcoin bcoin mod", "gov addcoin bcoin CoinB mod", "gov addcoin ccoin CoinC mod", "gov addcoin bcoin CoinB2 mod2", "gov addcoin acoin acoin ext",
 			"gov regerc20 ext", "gov regerc20 ext2", "gov regerc20 mod", "gov regerc20 eoa",
